@@ -30,6 +30,9 @@ def cases(seed, tier, broken=()):
         if out[-1]["tiny"]:
             out[-1]["standardize"] = bool(i % 2 == 0) or out[-1]["standardize"]
             out[-1]["scale"] = min(out[-1]["scale"], 1.0)
+    # latitude weighting over the whole sphere: grids that contain both poles (weight sqrt(cos 90°) ~ 8e-9, still undone)
+    for i in range(max(4, n // 10)):
+        out.append({"kind": "poles", "cls": ["EOF", "MCA", "ComplexEOF", "ComplexMCA"][i % 4], "mseed": int(rng.integers(0, 2**31)), "standardize": bool(i % 2)})
     cross = [c for c in RECON if zoo.takes_two(c) and "Hilbert" not in c]
     for i in range(max(6, n // 6)):
         out.append({"kind": "recon", "cls": cross[i % len(cross)], "mseed": int(rng.integers(0, 2**31)), "center": True,
@@ -216,6 +219,42 @@ def ns_rank_deficient(orig, dim, k, case):
     return False
 
 
+def run_poles(case):
+    """full-mode reconstruction with use_coslat on a grid containing both poles: finite everywhere, and equal to the data (the
+    weight at a pole is ~8e-9, so the cells there are restored to ~1e-7 relative, everything else to rounding)"""
+    F = []
+    cls = case["cls"]
+    rng = np.random.default_rng(case["mseed"])
+    n, lats, lons = 20, [-90.0, -40.0, 10.0, 90.0], [0.0, 30.0, 60.0]
+    cplx = zoo.needs_complex_input(cls)
+
+    def fld(nx_):
+        v = rng.normal(size=(n, len(lats), nx_)) + 3.0
+        if cplx:
+            v = v + 1j * rng.normal(size=v.shape)
+        return xr.DataArray(v, dims=("time", "lat", "lon"), coords={"time": np.arange(n), "lat": lats, "lon": lons[:nx_]})
+
+    X, Y = fld(3), fld(2)
+    two = zoo.takes_two(cls)
+    cfg = {"n_modes": 12 if not two else 8, "solver": "full", "use_coslat": True, "standardize": case["standardize"]}
+    if two:
+        cfg.update(use_pca=False)
+    m, _ = zoo.fit(cls, (X, Y) if two else X, "time", cfg)
+    rec = zoo.inverse_transform(cls, m, zoo.scores(cls, m))
+    cc = f"{cls}|poles"
+    for i, (orig, r) in enumerate(zip((X, Y) if two else (X,), rec)):
+        if two and i == 0:
+            continue  # 12 features > 8 modes: exempt
+        rv = np.asarray(r.transpose("time", "lat", "lon").values)
+        if not np.isfinite(rv).all():
+            F.append(Finding("oracle", "full_reconstruction", cc, f"field {i}: {int((~np.isfinite(rv)).sum())} non-finite values in the reconstruction on a grid with poles (use_coslat=True)"))
+            continue
+        e = np.abs(rv - orig.values).max() / np.abs(orig.values).max()
+        if e > 1e-5:
+            F.append(Finding("oracle", "full_reconstruction", cc, f"field {i}: reconstruction differs from the data by rel {e:.2e} on a grid with poles"))
+    return {"findings": F, "info": {"oracle_checks": {"poles": 1}, "dist": {"kind": "poles", "cls": cls}}}
+
+
 def run_tfinv(case):
     F = []
     cls = case["cls"]
@@ -350,4 +389,4 @@ def run_normalized(case):
 
 
 def run(case):
-    return {"recon": run_recon, "tfinv": run_tfinv, "normalized": run_normalized}[case["kind"]](case)
+    return {"recon": run_recon, "tfinv": run_tfinv, "normalized": run_normalized, "poles": run_poles}[case["kind"]](case)
